@@ -287,6 +287,12 @@ class CInference(Inference):
                 logger.debug("eta %s", eta)
                 logger.debug("vSums %s", vSums[index])
                 logger.debug("fSums %s", fSums[index])
+            if not fSums[index]:
+                # No world falsifies this conditional (its falsification has no
+                # minimal correction subset at all), so every ranking accepts it and
+                # its impact is unconstrained. Encoding a minimum over an empty set
+                # would make the whole CSP unsatisfiable.
+                continue
             mv, mf = freshVars(index)
             vMin = minima_encoding(mv, vSums[index])
             fMin = minima_encoding(mf, fSums[index])
